@@ -143,7 +143,7 @@ type c04Live struct {
 }
 
 func c04Pool(c *vlib.Ctx) {
-	rounds := c.Pick(5, 60)
+	rounds := c.Pick(5, 20)
 	c.SetBudget(600, 3<<30)
 	for round := 0; round < rounds; round++ {
 		if !c.Begin(round) {
@@ -151,7 +151,7 @@ func c04Pool(c *vlib.Ctx) {
 		}
 		r := c.Rand(uint64(round))
 		G := r.Range(2, 16)
-		ops := c.Pick(1200, 20000)
+		ops := c.Pick(1200, 8000)
 		reg := &c04Live{byBase: map[uintptr]int{}}
 		var reuse, maxLive, shared int64
 		seenBases := sync.Map{}
